@@ -7,3 +7,7 @@ chk("C20", "model_checking",
     "Assumes btokPwdTransition is a pure function of (pin, auth, event) (validated on generated histories) and that the clause monitors in props/c20.py transcribe the property text and comments 2-4 of btok.h faithfully.",
     "exhaustive enumeration of the implementation's transition graph x rule monitors (generated-input search degenerates to complete enumeration), plus stateful Hypothesis walks", "4.20")
 CHECKS["C20"]["engine"] = "b2x+enumeration"
+chk("C10", "exploration",
+    "Stateful generated cases for every Start/Step/Get bundle (belt ECB/CBC/CFB/CTR/BDE/SDE/WBL/KRP/FMT, MAC, Hash, HMAC, DWP, CHE; bash hash and programmable automaton; brng CTR/HMAC; botp HOTP/TOTP/OCRA): random partitions biased to buffer boundaries, Get/Verify in between, relocation of the state (old copy scribbled and freed); oracle is the one-shot function on the concatenated data / a twin automaton driven by one-shot commands.",
+    "One-shot functions are the oracle (their agreement with the standards is C01/C03). Relocation is asserted only where the header declares the state copyable (belt.h, brng.h, botp.h), not for bash.",
+    "stateful property-based testing, differential oracle chunked-vs-one-shot and relocated-vs-in-place (Hypothesis -> b2x executor under ASan)", "4.10")
